@@ -4,125 +4,56 @@
  *   for every i in 1..num_words(s): get_word(i, s) is the i-th word of the word grammar (whitespace-
  *   separated; a word that opens with a quote runs to the matching quote) and get_pword(i, s) points at
  *   the i-th whitespace-separated word.
- * The real strings.c is executed (unannotated "../src/strings.c" of the tree under check) on the loop
+ * The real strings.c is executed (rawsrc/ = the unannotated file of the tree under check) on the loop
  * strlen of env_split.h and the fat-block allocator; the input's terminator is the last byte of its object.
  *
  * "points at the i-th whitespace-separated word": the returned pointer is the first character of that
  * word; for a word that opens with a quote character and has more characters it is the character behind
- * the quote (what spiftool_get_pword documents: "..." counts as 1 word).
- *
- * Input classes (disjoint assumptions; a known defect of one class cannot hide a regression in another):
- *   plain      no quote character, no backslash
- *   quoted     contains a quote character or a backslash, but not the pattern of the third class
- *   escquote   (count, get_word) a backslash stands directly in front of a quote character
- *   lonequote  (get_pword) the indexed whitespace-separated word is one quote character and ends the input */
+ * the quote (what spiftool_get_pword documents: "..." counts as 1 word).  num_words counts quote-delimited
+ * words, so it may exceed the number of whitespace-separated words: get_pword(i) is NULL exactly when
+ * there is no i-th whitespace-separated word.
+ * Native replay (`native: self`): inputs W_len, W_c0..W_c6, W_idx, W_gk. */
 
 /*@unit
-name: words.count.plain
-define: U_COUNT, V_CLASS=0
+name: words.count
+define: U_COUNT
 src: strings.c
 tier: B
-bound: input length <= 5 (quick tier) / <= 7 (thorough tier) over {a,b,space,:,',",\}; inputs without quote characters and backslashes; every index 1..num_words; loops unwound 10
+bound: input length <= 5 (quick tier) / <= 7 (thorough tier) over {a,b,space,:,',",\}; loops unwound 10
 unwind: 10
 backend: cadical
-timeout: 600
-timeout_thorough: 3000
+native: self
+timeout: 900
+timeout_thorough: 6000
+mem: 16
 funcs: spiftool_num_words
 */
 /*@unit
-name: words.count.quoted
-define: U_COUNT, V_CLASS=1
+name: words.get_word
+define: U_GETWORD
 src: strings.c
 tier: B
-bound: input length <= 5 (quick tier) / <= 7 (thorough tier) over {a,b,space,:,',",\}; inputs with a quote character or a backslash, no backslash directly in front of a quote character; every index 1..num_words; loops unwound 10
+bound: input length <= 5 (quick tier) / <= 7 (thorough tier) over {a,b,space,:,',",\}; every index 1..num_words; loops unwound 10
 unwind: 10
 backend: cadical
-timeout: 600
-timeout_thorough: 3000
-funcs: spiftool_num_words
-*/
-/*@unit
-name: words.count.escquote
-define: U_COUNT, V_CLASS=2
-src: strings.c
-tier: B
-bound: input length <= 5 (quick tier) / <= 7 (thorough tier) over {a,b,space,:,',",\}; inputs with a backslash directly in front of a quote character; every index 1..num_words; loops unwound 10
-unwind: 10
-backend: cadical
-timeout: 600
-timeout_thorough: 3000
-funcs: spiftool_num_words
-*/
-/*@unit
-name: words.get_word.plain
-define: U_GETWORD, V_CLASS=0
-src: strings.c
-tier: B
-bound: input length <= 5 (quick tier) / <= 7 (thorough tier) over {a,b,space,:,',",\}; inputs without quote characters and backslashes; every index 1..num_words; loops unwound 10
-unwind: 10
-backend: cadical
-timeout: 600
-timeout_thorough: 3000
+native: self
+timeout: 900
+timeout_thorough: 6000
+mem: 16
 funcs: spiftool_get_word, spiftool_num_words
 */
 /*@unit
-name: words.get_word.quoted
-define: U_GETWORD, V_CLASS=1
+name: words.get_pword
+define: U_GETPWORD
 src: strings.c
 tier: B
-bound: input length <= 5 (quick tier) / <= 7 (thorough tier) over {a,b,space,:,',",\}; inputs with a quote character or a backslash, no backslash directly in front of a quote character; every index 1..num_words; loops unwound 10
+bound: input length <= 5 (quick tier) / <= 7 (thorough tier) over {a,b,space,:,',",\}; every index 1..num_words; loops unwound 10
 unwind: 10
 backend: cadical
-timeout: 600
-timeout_thorough: 3000
-funcs: spiftool_get_word, spiftool_num_words
-*/
-/*@unit
-name: words.get_word.escquote
-define: U_GETWORD, V_CLASS=2
-src: strings.c
-tier: B
-bound: input length <= 5 (quick tier) / <= 7 (thorough tier) over {a,b,space,:,',",\}; inputs with a backslash directly in front of a quote character; every index 1..num_words; loops unwound 10
-unwind: 10
-backend: cadical
-timeout: 600
-timeout_thorough: 3000
-funcs: spiftool_get_word, spiftool_num_words
-*/
-/*@unit
-name: words.get_pword.plain
-define: U_GETPWORD, V_CLASS=0
-src: strings.c
-tier: B
-bound: input length <= 5 (quick tier) / <= 7 (thorough tier) over {a,b,space,:,',",\}; inputs without quote characters and backslashes; every index 1..num_words; loops unwound 10
-unwind: 10
-backend: cadical
-timeout: 600
-timeout_thorough: 3000
-funcs: spiftool_get_pword, spiftool_num_words
-*/
-/*@unit
-name: words.get_pword.quoted
-define: U_GETPWORD, V_CLASS=1
-src: strings.c
-tier: B
-bound: input length <= 5 (quick tier) / <= 7 (thorough tier) over {a,b,space,:,',",\}; inputs with a quote character or a backslash, no word that is a lone quote character at the end of the input; every index 1..num_words; loops unwound 10
-unwind: 10
-backend: cadical
-timeout: 600
-timeout_thorough: 3000
-funcs: spiftool_get_pword, spiftool_num_words
-*/
-/*@unit
-name: words.get_pword.lonequote
-define: U_GETPWORD, V_CLASS=2
-src: strings.c
-tier: B
-bound: input length <= 5 (quick tier) / <= 7 (thorough tier) over {a,b,space,:,',",\}; the indexed whitespace-separated word is a single quote character at the end of the input; every index 1..num_words; loops unwound 10
-unwind: 10
-backend: cadical
-timeout: 600
-timeout_thorough: 3000
+native: self
+timeout: 900
+timeout_thorough: 6000
+mem: 16
 funcs: spiftool_get_pword, spiftool_num_words
 */
 #define VERIF_OWN_STRLEN
@@ -134,47 +65,24 @@ funcs: spiftool_get_pword, spiftool_num_words
 #include "env_split.h"
 #include "split.h"
 #include "ref.h"
-#include "../src/strings.c"
-
-#if V_CLASS == 0
-# define CLS "[plain]"
-#elif V_CLASS == 1
-# define CLS "[quotes/backslash]"
-#elif defined(U_GETPWORD)
-# define CLS "[lone trailing quote]"
-#else
-# define CLS "[backslash-quote]"
-#endif
+#include "rawsrc/strings.c"
 
 unsigned long w_index;
 
 void harness(void)
 {
-    unsigned n, i;
+    unsigned n;
     char *in = vr_input(&n);
-    int special = 0, escq = 0;
     unsigned long nw, idx;
     unsigned rn;
-
-    for (i = 0; i < n; i++) {
-        if (in[i] == '\'' || in[i] == '"' || in[i] == '\\') special = 1;
-        if (in[i] == '\\' && (in[i + 1] == '\'' || in[i + 1] == '"')) escq = 1;
-    }
-#if V_CLASS == 0
-    __CPROVER_assume(!special);
-#elif !defined(U_GETPWORD)
-    __CPROVER_assume(special && (V_CLASS == 2) == (escq != 0));
-#else
-    __CPROVER_assume(special);
-#endif
 
     nw = spiftool_num_words((spif_charptr_t) in);
     rn = vr_nwords(in);
 #ifdef U_COUNT
-    __CPROVER_assert(nw == rn, "num_words " CLS ": equals the number of words of the word grammar");
+    __CPROVER_assert(nw == rn, "num_words: equals the number of words of the word grammar");
 #endif
 
-    idx = nondet_ulong();
+    idx = (unsigned long) VND(ulong, idx);
     w_index = idx;
     __CPROVER_assume(idx >= 1 && idx <= nw);
 
@@ -183,11 +91,11 @@ void harness(void)
         char want[VR_BUF];
         spif_charptr_t w = spiftool_get_word(idx, (spif_charptr_t) in);
         int have = vr_word(in, (unsigned) idx, want);
-        __CPROVER_assert(w != NULL, "get_word " CLS ": a word is returned for every index 1..num_words");
+        __CPROVER_assert(w != NULL, "get_word: a word is returned for every index 1..num_words");
         if (w != NULL) {
-            __CPROVER_assert(have, "get_word " CLS ": the word grammar has a word with that index");
+            __CPROVER_assert(have, "get_word: the word grammar has a word with that index");
             if (have) {
-                __CPROVER_assert(vr_streq((char *) w, want), "get_word " CLS ": text equals the word of the word grammar");
+                __CPROVER_assert(vr_streq((char *) w, want), "get_word: text equals the word of the word grammar");
             }
             vs_check_block(w);
         }
@@ -195,25 +103,17 @@ void harness(void)
 #endif
 #ifdef U_GETPWORD
     {
-        spif_charptr_t p;
+        spif_charptr_t p = spiftool_get_pword(idx, (spif_charptr_t) in);
         int off = vr_pword(in, (unsigned) idx);
-        int lone = (off >= 0 && (in[off] == '\'' || in[off] == '"') && in[off + 1] == 0);
-#if V_CLASS == 1
-        __CPROVER_assume(!lone);
-#elif V_CLASS == 2
-        __CPROVER_assume(lone);
-#endif
-        p = spiftool_get_pword(idx, (spif_charptr_t) in);
-        /* num_words counts quote-delimited words, so it may exceed the number of whitespace-separated words */
-        __CPROVER_assert((p != NULL) == (off >= 0), "get_pword " CLS ": a pointer is returned iff there is an i-th whitespace-separated word");
+        __CPROVER_assert((p != NULL) == (off >= 0), "get_pword: a pointer is returned iff there is an i-th whitespace-separated word");
         if (p != NULL && off >= 0) {
             /* spiftool_get_pword documents that the pointer is set behind the opening quote of a quoted word */
             int skip = ((in[off] == '\'' || in[off] == '"') && in[off + 1] != 0) ? 1 : 0;
             __CPROVER_assert((char *) p == in + off + skip,
-                             "get_pword " CLS ": points at the i-th whitespace-separated word (behind its opening quote, if it has one)");
+                             "get_pword: points at the i-th whitespace-separated word (behind its opening quote, if it has one)");
         }
     }
 #endif
-    __CPROVER_assert(!(vg_k <= n) || in[vg_k] == w_in[vg_k], "words " CLS ": input string unchanged");
+    __CPROVER_assert(!(vg_k <= n) || in[vg_k] == w_in[vg_k], "words: input string unchanged");
     VERIF_CANARY();
 }
